@@ -165,8 +165,9 @@ def iterate_concrete(eng, v):
     if isinstance(v, Iter):
         if v.consumed:
             return []
+        items = iterate_concrete(eng, v.seq)  # may be refused (symbolic length): the iterator is then NOT consumed yet
         v.consumed = True
-        return iterate_concrete(eng, v.seq)
+        return items
     if isinstance(v, _Zip):
         cols = [iterate_concrete(eng, s) for s in v.seqs]
         return [tuple(t) for t in zip(*cols)]
